@@ -70,9 +70,17 @@ OutcomeOK(op, err) == CASE op \in {"Get", "BGet", "IterValue"} -> err \in {"ok",
                         [] op = "Merge" -> err \notin Internal
                         [] OTHER -> err = "ok"
 TCop  == /\ Is("cop") /\ l' = l + 1 /\ Must("c09", OutcomeOK(E.op, E.err)) /\ UNCHANGED <<reg, pend>>
+\* C05, several goroutines on one batch: a late Put / Delete / Get that queued around a Commit. An accepted Put or
+\* Delete has taken effect (it was part of what Commit wrote); a call that came after the Commit was rejected; the
+\* Commit itself and the call that overflowed succeeded.
+TSBatch == /\ Is("sbatch") /\ l' = l + 1 /\ UNCHANGED <<reg, pend>>
+           /\ LET e == E IN
+              Must("sbatch", /\ e.commit = "ok" /\ e.big = "ok"
+                             /\ \/ e.late = "batchcommitted" /\ ~e.effect
+                                \/ e.late = "ok" /\ (e.kind = "Get" \/ e.effect))
 TNote == /\ Is("note") /\ l' = l + 1 /\ Must(E.check, E.ok) /\ UNCHANGED <<reg, pend>>
 
-Next == TReset \/ TCall \/ TRet \/ TFinal \/ TCop \/ TNote \/ \E c \in DOMAIN pend : Lin(c)
+Next == TReset \/ TCall \/ TRet \/ TFinal \/ TCop \/ TNote \/ TSBatch \/ \E c \in DOMAIN pend : Lin(c)
 Spec == Init /\ [][Next]_vars
 
 ASSUME TLCSet(1, 0)
